@@ -4,6 +4,7 @@ package main
 
 import (
 	"fmt"
+	"math"
 	"strconv"
 	"strings"
 	"time"
@@ -327,5 +328,64 @@ func init() {
 			return "ERR bad-command"
 		}
 		return runTree(a[0], a[1], a[2])
+	}
+}
+
+// OUTINT word values: strategy.Outcome over integer element types must equal Outcome over the same values as float64
+func outcomeOver[T helper.Number](vals []int, word []strategy.Action) []float64 {
+	vs := make([]T, len(vals))
+	for i, v := range vals {
+		vs[i] = T(v)
+	}
+	return helper.ChanToSlice(strategy.Outcome(helper.SliceToChan(vs), helper.SliceToChan(word)))
+}
+
+func runOutcomeInt(a []string) (result string) {
+	defer func() {
+		if r := recover(); r != nil {
+			result = fmt.Sprintf("panic %v", r)
+		}
+	}()
+	ws, err1 := parseInts(a[0])
+	vals, err2 := parseInts(a[1])
+	if err1 != nil || err2 != nil {
+		return "ERR parse"
+	}
+	word := make([]strategy.Action, len(ws))
+	for i, v := range ws {
+		word[i] = strategy.Action(v)
+	}
+	done := make(chan string, 1)
+	go func() {
+		ref := outcomeOver[float64](vals, word)
+		for name, got := range map[string][]float64{"int": outcomeOver[int](vals, word), "int64": outcomeOver[int64](vals, word),
+			"int32": outcomeOver[int32](vals, word), "float32": outcomeOver[float32](vals, word)} {
+			if len(got) != len(ref) {
+				done <- fmt.Sprintf("diff %s length %d != %d", name, len(got), len(ref))
+				return
+			}
+			for i := range ref {
+				if math.Float64bits(got[i]) != math.Float64bits(ref[i]) {
+					done <- fmt.Sprintf("diff %s index %d %v != %v", name, i, got[i], ref[i])
+					return
+				}
+			}
+		}
+		done <- "ok " + showFloats(ref)
+	}()
+	select {
+	case r := <-done:
+		return r
+	case <-time.After(caseTimeout):
+		return "timeout"
+	}
+}
+
+func init() {
+	extraHandlers["OUTINT"] = func(a []string) string {
+		if len(a) != 2 {
+			return "ERR bad-command"
+		}
+		return runOutcomeInt(a)
 	}
 }
